@@ -80,7 +80,7 @@ def attribute(prop, u):
         return 'RC4b'
     if kind == 'missed-double-spend-nested-under-comparable-entry-clocks':
         return 'RC9'
-    if prop == 'C17' and system == 'orswot' and kind == 'false-merge-reject' and any(o['k'] == 1 for o in ops):
+    if kind == 'false-merge-reject-dot-shared-by-add-all':
         return 'RC5'
     if system == 'map_mvreg':
         if kind.endswith('hidden-state') or kind == 'state-neq-hidden':
@@ -101,7 +101,49 @@ def attribute(prop, u):
                 return 'RC3'
     return None
 
-SITE = {('RC9', 'missed-double-spend-nested-under-comparable-entry-clocks'), ('RC6', 'ser-error-pending'), ('RC4b', 'false-reject-nested'), ('RC1', 'state-neq-hidden'), ('RC1', 'dup-changes-hidden-state'), ('RC1', 'stale-merge-changes-hidden-state')}
+SITE = {('RC5', 'false-merge-reject-dot-shared-by-add-all'), ('RC9', 'missed-double-spend-nested-under-comparable-entry-clocks'), ('RC6', 'ser-error-pending'), ('RC4b', 'false-reject-nested'), ('RC1', 'state-neq-hidden'), ('RC1', 'dup-changes-hidden-state'), ('RC1', 'stale-merge-changes-hidden-state')}
+
+def write_golden(out):
+    """Golden failing-sets: for every configuration family the exact failing histories (64-bit failure ids)
+    of the unchanged tree, attributed to a finding through their core.  Written only from a learn run
+    (replays/<ID>/failing-<tier>.json exist)."""
+    import struct, shutil
+    lookup = {}
+    for f in out['findings']:
+        for m in f['matchers']:
+            lookup[(f['property'], m['system'], m['kind'], m['core'])] = f['id']
+    gdir = f'{V}/golden'
+    files = glob.glob(f'{V}/replays/*/failing-*.json')
+    if not files:
+        print('no learn dump: golden sets left untouched')
+        return
+    shutil.rmtree(gdir, ignore_errors=True)
+    os.makedirs(gdir)
+    per_prop = collections.defaultdict(lambda: collections.defaultdict(set))
+    skipped = 0
+    for fpath in files:
+        prop = fpath.split('/')[-2]
+        for job in json.load(open(fpath)):
+            for fid, kind, core in job['entries']:
+                fidn = lookup.get((prop, job['system'], kind, core))
+                if fidn is None:
+                    if (prop, job['system'], kind, '*') in lookup:
+                        continue   # site-matched kinds never reach the golden check
+                    skipped += 1
+                    continue
+                per_prop[prop][(job['family'], fidn)].add(int(fid, 16))
+    total = 0
+    for prop, sets in per_prop.items():
+        idx, blob, off = [], b'', 0
+        for (fam, fidn), ids in sorted(sets.items()):
+            ids = sorted(ids)
+            idx.append(dict(family=fam, finding=fidn, count=len(ids), offset=off))
+            blob += struct.pack('<%dQ' % len(ids), *ids)
+            off += len(ids)
+        total += off
+        json.dump(dict(comment="golden failing-set index: per configuration family and finding, 'count' 64-bit failure ids starting at entry 'offset' of the .bin file (little endian)", sets=idx), open(f'{gdir}/{prop}.json', 'w'), indent=1)
+        open(f'{gdir}/{prop}.bin', 'wb').write(blob)
+    print(f'golden failing-sets: {total} failing histories in {len(per_prop)} properties ({skipped} entries without a listed core skipped)')
 
 def main():
     findings = collections.OrderedDict()
@@ -133,6 +175,13 @@ def main():
     p = f'{V}/known_findings.json'
     if os.path.exists(p):
         old = json.load(open(p))
+    # site predicates (core "*") are never re-learned (a learn run keeps them active): carry them over
+    for fd in old.get('findings', []):
+        for m in fd['matchers']:
+            if m['core'] == '*':
+                cur = findings.setdefault(fd['id'], dict(id=fd['id'], property=fd['property'], root_cause=fd.get('root_cause'), what_fails=fd['what_fails'], matchers=[]))
+                if not any(x['system'] == m['system'] and x['kind'] == m['kind'] and x['core'] == '*' for x in cur['matchers']):
+                    cur['matchers'].append(m)
     # keep previously listed matchers (quick and thorough tiers are generated in separate runs)
     if '--fresh' not in sys.argv:
         for fd in old.get('findings', []):
@@ -149,6 +198,7 @@ def main():
         ]),
     )
     json.dump(out, open(p, 'w'), indent=1)
+    write_golden(out)
     n = sum(len(f['matchers']) for f in out['findings'])
     print(f"wrote {p}: {len(out['findings'])} findings, {n} matchers")
     for f in out['findings']:
